@@ -15,6 +15,7 @@ CHECKS = {
  "C06": ("exploration", "the wire monitor's window, chunk and credit rules (written from tunnel.proto) run on every frame of the message-flow, flow-control and teardown runs; a raw peer in both roles overruns the 64 KiB window by 1 byte .. 16 windows (one message or many, several chunk sizes, with and without genuinely consumed messages first) while the application is parked; oracles: queued bytes (verif accessor) <= window, the RPC ends ResourceExhausted, an in-flight bystander and a fresh RPC complete", "6 C06"),
  "C07": ("fault_enumeration", "for seeded baselines the RPC of interest is cancelled at every frame boundary (thorough) or a stratified sample (quick), plus a variant that holds back all delivery towards the caller, plus virtual-time deadlines; oracles: exactly one legal outcome, handler released, bystanders and a fresh RPC unaffected", "6 C07"),
  "C08": ("exploration", "seeded search: many goroutines released together start RPCs on one channel (some failing at start) under lock-granularity schedules, with the wire monitor checking that ids strictly increase and begin with new_stream and the history checking one invocation of the named handler per completed call; plus a raw tunnel client (both network roles) that reuses, reverses, negates, skips ids and sends frames for finished ids, followed by a probe stream", "6 C08"),
+ "C09": ("exploration", "seeded search over frame conversations generated from the protocol grammar with 0-3 deviations (drop, duplicate, swap, id rewrites, wrong sizes, oversize chunks, bad/empty method names, continuation without envelope, bad revisions, empty frames, absurd windows and window updates, extra half-close/cancel), in both roles and both network roles, followed by a probe stream and hang-up; oracles: no panic, nothing blocked and nothing retained at final quiescence, buffered bytes per stream <= one window, and the outcome class (stream-level vs tunnel-level) predicted by running the documented stream-id rules over the frame list", "6 C09"),
  "C10": ("fault_enumeration", "for seeded baselines graceful shutdown (InitiateShutdown / GracefulStop in its own goroutine) is initiated at every frame boundary (thorough) or a stratified sample (quick) of a workload of in-flight RPCs, further RPCs are attempted afterwards, the run is driven to final quiescence and Stop is called; oracles: RPCs started after shutdown took effect are refused with Unavailable and never reach a handler, in-flight RPCs complete as planned, the tunnel stays up for them, GracefulStop/Stop return when they should", "6 C10"),
  "C13": ("exploration", "every frame of every explored run (message-flow, teardown, metadata families) is fed, at emission and at delivery, to a protocol automaton written from tunnel.proto (appendix A)", "6 C13, appendix A"),
  "C16": ("exploration", "seeded search over shape cases: raw client vs real server and raw server vs real client with 0-4 messages on the non-streaming side, arbitrary chunking, messages after the half-close/close, both network roles, negotiated and legacy; and applications that send twice on a non-streaming side (wire monitor: one envelope)", "6 C16"),
